@@ -610,7 +610,8 @@ def decorate(draw, prog, abi=True, rename=True, disable=True, density=4, namespa
                     if rename and maybe():
                         m["attrs"].append('#[diplomat::attr(%s, rename = "%s")]' % (draw(st.sampled_from(CFG_ATOMS)), fresh("renamed_" + m["name"])))
                         placed.append("rename:method")
-                    if disable and maybe():
+                    if disable and maybe() and not any("disable" in a for a in impl["attrs"]):
+                        # (a method-level disable under a disabled impl is reported as "Duplicate `disable`")
                         m["attrs"].append("#[diplomat::attr(%s, disable)]" % draw(st.sampled_from(CFG_ATOMS)))
                         placed.append("disable:method")
     return placed
